@@ -253,9 +253,9 @@ pub fn run(tier: Tier, seed: u64, known: &Known) -> PropRun {
         "reference rules validated against published perft data; reference search has no pruning, ordering, caching or iteration".into(),
         "positions whose reference tree exceeds the node cap are excluded and counted (heavy tactical middlegames are under-represented at depth >= 3)".into(),
     ];
-    let cap = tier.pick(60_000u64, 2_000_000u64);
+    let cap = tier.pick(60_000u64, 1_000_000u64);
     run.extra.insert("reference_node_cap".into(), json!(cap));
-    let part = Part { name: "search", cases: tier.pick(2_000, 60_000), min_len: 24, max_len: 500, max_shrink: 400, threads: threads() };
+    let part = Part { name: "search", cases: tier.pick(2_000, 24_000), min_len: 24, max_len: 500, max_shrink: 400, threads: threads() };
     let (st, fl) = run_part(&part, seed, known, |b, st| {
         REF_CAP.with(|c| c.set(cap));
         check(b, st)
